@@ -38,6 +38,8 @@ CDiv(a, b) == CMul(a, CInv(b))
 RECURSIVE CSumSeq(_)
 CSumSeq(s) == IF s = <<>> THEN CZero ELSE CAdd(Head(s), CSumSeq(Tail(s)))
 
+CSumFn(F(_), lo, hi) == CSumSeq([i \in 1..((hi - lo) + 1) |-> F((lo + i) - 1)])
+
 CSeqBad(s) == \E i \in 1..Len(s) : CBad(s[i])
 
 \* multiplication by i^k
